@@ -373,6 +373,19 @@ async fn oracles(out: &mut Outcome, ctl: &Arc<Mutex<Ctl>>, n: &mut Node, progs: 
             }
         }
     }
+    // ---- C02: every stream of a session has its own id
+    {
+        let mut ids: Vec<u32> = c.opened.iter().map(|h| h.stream.id()).collect();
+        ids.sort();
+        if let Some(w) = ids.windows(2).find(|w| w[0] == w[1]) {
+            out.oracle.push(OracleFail { sig: "stream_id_reused/open_stream".into(), detail: format!("two streams opened on this session both have id {} (ids {:?})", w[0], ids) });
+        }
+        let mut syns: Vec<u32> = frames.iter().filter(|f| f.0 == 1).map(|f| f.1).collect();
+        syns.sort();
+        if let Some(w) = syns.windows(2).find(|w| w[0] == w[1]) {
+            out.oracle.push(OracleFail { sig: "stream_id_reused/open_stream".into(), detail: format!("two SYN frames for id {} on the wire", w[0]) });
+        }
+    }
     // ---- C11: the wire is a sequence of whole frames; per-task order; Settings first; SYN before PSH; nothing lost
     let no_failure = !budget_hit;
     if no_failure && !rest.is_empty() && c.st.iter().all(|s| *s == St::Done) {
